@@ -135,6 +135,8 @@ def parseOp : SExp → Option Op
   | .list [.atom "insGuideBad", t, r, v] => do some (.insGuideBad (← anyT? t) (← asNat? r) (← optId? v))
   | .list [.atom "setAnchorsBad", t, vs] => do some (.setAnchorsBad (← glyphT? t) (← asListOf? optId? vs))
   | .list [.atom "setGuidesBad", t, vs] => do some (.setGuidesBad (← anyT? t) (← asListOf? optId? vs))
+  | .list [.atom "load", t] => do some (.load (← glyphT? t))
+  | .list [.atom "insertGlyphVia", t, src] => do some (.insertGlyphVia (← glyphT? t) (← glyphT? src))
   | _ => none
 
 def encOptId (v : Option Id) : SExp := ofOpt ofNat v
@@ -168,7 +170,8 @@ def encRes : Res → SExp
 def encGlyph (g : Glyph) : SExp :=
   .list [tagged "set" (g.reg.map ofNat), .list (g.contours.map encContour),
          .list (g.comps.map fun k => .list [ofNat k.base, encOptId k.id]),
-         .list (g.anchors.map encOptId), .list (g.guides.map encOptId)]
+         .list (g.anchors.map encOptId), .list (g.guides.map encOptId),
+         .atom (if g.shallow then "shallow" else "loaded")]
 
 def encFont (g : Glyph) : SExp :=
   .list [tagged "set" (g.reg.map ofNat), .list (g.guides.map encOptId)]
